@@ -144,6 +144,69 @@ def reused_object(j, rng):
     return None
 
 
+def huge_numbers(hist):
+    """numbers with more decimal digits than CPython's int -> str conversion limit (4300 by default; an application may lower it to 640) in every
+    integer field: the codec works on octets, so such messages encode, decode back equal and re-encode to the same bytes.  Implementation only —
+    such numbers cannot travel through JSON or the line protocol under the same limit; nothing here converts them to text"""
+    import sys
+
+    out = []
+    prev = sys.get_int_max_str_digits() if hasattr(sys, "get_int_max_str_digits") else None
+    F = sansldap_mod()
+    for limit in ([prev, 640] if prev is not None else [None]):
+        if limit is not None:
+            sys.set_int_max_str_digits(limit)
+        try:
+            for digits in (641, 4299, 4301, 9000):
+                for sign in (1, -1):
+                    n = sign * (10 ** digits + 7)
+                    res = lambda code=0: F.LDAPResult(result_code=F.LDAPResultCode(code), matched_dn="", diagnostics_message="", referrals=None)
+                    msgs = [
+                        ("message id", M.ExtendedRequest(message_id=n, controls=[], name="1.2", value=None)),
+                        ("message id", M.SearchResultDone(message_id=n, controls=[], result=res())),
+                        ("message id", M.UnbindRequest(message_id=n, controls=[])),
+                        ("bind version", M.BindRequest(message_id=1, controls=[], version=n, name="", authentication=F.SimpleCredential(""))),
+                        ("size limit", M.SearchRequest(message_id=2, controls=[], base_object="", scope=M.SearchScope(2), deref_aliases=M.DereferencingPolicy(0),
+                                                       size_limit=n, time_limit=-n, types_only=False, filter=F.FilterPresent("cn"), attributes=[])),
+                        ("paged size", M.ExtendedRequest(message_id=3, controls=[F.PagedResultControl(critical=True, size=n, cookie=b"c")], name="1.2", value=None)),
+                    ]
+                    try:
+                        msgs.append(("result code", M.ExtendedResponse(message_id=4, controls=[], result=res(n), name=None, value=None)))
+                    except BaseException:  # noqa: BLE001  (constructing the enum member may itself format the number)
+                        hist["huge-numbers:enum-construction-refused"] += 1
+                    for where, m in msgs:
+                        hist["huge-numbers"] += 1
+                        opts = M.PackingOptions()
+                        try:
+                            data = bytes(m.pack(opts))
+                            r = ASN1Reader(data + b"\x30\x03")
+                            back = M.unpack_ldap_message(r, opts)
+                            rest = r.get_remaining_data()
+                            again = bytes(back.pack(opts))
+                            ok = rest == b"\x30\x03" and again == data and type(back) is type(m) and back.message_id == m.message_id and \
+                                all(getattr(back, f) == getattr(m, f) for f in ("version", "size_limit", "time_limit") if hasattr(m, f)) and \
+                                (not hasattr(m, "result") or int(back.result.result_code) == int(m.result.result_code)) and \
+                                [getattr(c, "size", None) for c in back.controls] == [getattr(c, "size", None) for c in m.controls]
+                            why = "decoded message differs, or the bytes are not consumed exactly / re-encoded identically"
+                        except BaseException as e:  # noqa: BLE001
+                            ok, why = False, f"raised {type(e).__name__}"
+                        if not ok:
+                            out.append({"key": None, "what": f"a {type(m).__name__} whose {where} has {digits} decimal digits ({'negative' if sign < 0 else 'positive'}; "
+                                        f"interpreter int/str digit limit {limit}) does not survive encode -> decode: {why}", "kind": type(m).__name__,
+                                        "field": where, "digits": digits, "sign": sign, "int_max_str_digits": limit})
+                            if len(out) >= 5:
+                                return out
+        finally:
+            if prev is not None:
+                sys.set_int_max_str_digits(prev)
+    return out
+
+
+def sansldap_mod():
+    from codec import sansldap
+    return sansldap
+
+
 ENCODINGS = ["utf-8", "latin-1", "utf-16-le", "utf-16", "utf-32-be", "cp1252", "ascii"]
 
 
@@ -286,6 +349,7 @@ def run(ctx):
             break
     violations += long_lived_options(ctx, hist)
     violations += other_encodings(ctx, hist)
+    violations += huge_numbers(hist)
     sample_n = ctx.scale(3000, 30000)
     sub = msgs[:sample_n]
     encs = []
